@@ -296,7 +296,7 @@ func run(c *Case) {
 						fail(i, "search error: "+r.err.Error())
 						return
 					}
-				case <-time.After(20 * time.Second):
+				case <-time.After(120 * time.Second):
 				}
 				infra(i, fmt.Sprintf("reader did not arrive at %q", rnext[s.A]))
 				return
